@@ -96,6 +96,15 @@ class PTranslator(F.FTranslator):
             e, t = self.expr(a[2], env, out)
             tmp = self.fresh('lift'); out.append(('alg', 'liftX', tmp, V(0), V(1), unidx(K.fold(e)))); return var(tmp), (32, True)
         if name == '__builtin_expect': return self.expr(a[0], env, out)
+        if short == 'ecdsa_signature_load':      # the signature OBJECT is the pair of scalars <obj>.r, <obj>.s
+            o = V(3); out.append(('alg', 'scSet', V(1), o + '.r')); out.append(('alg', 'scSet', V(2), o + '.s')); return lit(0), (32, True)
+        if short == 'ecdsa_signature_save':
+            o = V(0); out.append(('alg', 'scSet', o + '.r', V(1))); out.append(('alg', 'scSet', o + '.s', V(2))); return lit(0), (32, True)
+        if short == 'ecmult_gen_context_is_built': return lit(1), (32, True)      # translated for a fully built context
+        if short == 'memczero':                  # secp256k1_memczero(obj, sizeof, flag): the all-zero object if flag
+            tgt = self.pointer(a[0], env); e, t = self.expr(a[2], env, out)
+            if tgt[0] != 'struct': raise Unsupported('memczero on ' + str(tgt))
+            out.append(('ite', pfold(unidx(K.fold(e))), [('alg', 'ptClear', tgt[1])], [])); return lit(0), (32, True)
         if short == 'scalar_set_b32_seckey':
             tmp = self.fresh('sk'); out.append(('alg', 'scOfBytesSeckey', tmp, V(0), V(1))); return var(tmp), (32, True)
         if short == 'scalar_cmov':
@@ -253,6 +262,12 @@ SETS = {'schnorr': [
     ('sig_verify', 'secp256k1_ecdsa_sig_verify'),
     ('sig_sign', 'secp256k1_ecdsa_sig_sign'),
     ('sig_recover', 'secp256k1_ecdsa_sig_recover'),
+], 'api': [
+    ('ecdsa_verify', 'secp256k1_ecdsa_verify'),
+    ('ecdsa_signature_normalize', 'secp256k1_ecdsa_signature_normalize'),
+    ('ec_pubkey_create', 'secp256k1_ec_pubkey_create'),
+    ('ec_seckey_verify', 'secp256k1_ec_seckey_verify'),
+    ('xonly_pubkey_tweak_add', 'secp256k1_xonly_pubkey_tweak_add'),
 ]}
 
 
